@@ -27,6 +27,21 @@ func calleeName(p *packages.Package, c *ast.CallExpr) string {
 // classify the body of a map range
 func classifyRange(p *packages.Package, fd *ast.FuncDecl, rs *ast.RangeStmt) string {
 	emits, exits, appends, mapWrites, deletes, calls := false, false, []string{}, false, false, []string{}
+	appendObjs := map[types.Object]bool{}
+	var carries []string
+	// a variable that lives across iterations and is written in the body (other than `x = append(x, ...)`)
+	// makes the result depend on the iteration order
+	outer := func(e ast.Expr) (string, bool) {
+		id, ok := e.(*ast.Ident)
+		if !ok || id.Name == "_" || p.TypesInfo == nil {
+			return "", false
+		}
+		obj := p.TypesInfo.ObjectOf(id)
+		if obj == nil || (obj.Pos() >= rs.Pos() && obj.Pos() <= rs.End()) {
+			return "", false
+		}
+		return id.Name, true
+	}
 	ast.Inspect(rs.Body, func(n ast.Node) bool {
 		switch v := n.(type) {
 		case *ast.FuncLit:
@@ -37,16 +52,33 @@ func classifyRange(p *packages.Package, fd *ast.FuncDecl, rs *ast.RangeStmt) str
 			if v.Tok == token.BREAK {
 				exits = true
 			}
+		case *ast.IncDecStmt:
+			if n, ok := outer(v.X); ok {
+				carries = append(carries, n)
+			}
 		case *ast.AssignStmt:
 			for i, l := range v.Lhs {
 				if _, ok := l.(*ast.IndexExpr); ok {
 					mapWrites = true
 				}
-				if i < len(v.Rhs) {
+				isAppend := false
+				if i < len(v.Rhs) && len(v.Lhs) == len(v.Rhs) {
 					if c, ok := v.Rhs[i].(*ast.CallExpr); ok && calleeName(p, c) == "append" {
 						if id, ok := l.(*ast.Ident); ok {
 							appends = append(appends, id.Name)
+							if p.TypesInfo != nil {
+								appendObjs[p.TypesInfo.ObjectOf(id)] = true
+							}
+							// x = append(x, ...): the collected slice itself
+							if len(c.Args) > 0 && exprString(p.Fset, c.Args[0]) == id.Name && v.Tok == token.ASSIGN {
+								isAppend = true
+							}
 						}
+					}
+				}
+				if !isAppend && v.Tok != token.DEFINE {
+					if n, ok := outer(l); ok {
+						carries = append(carries, n)
 					}
 				}
 			}
@@ -71,10 +103,9 @@ func classifyRange(p *packages.Package, fd *ast.FuncDecl, rs *ast.RangeStmt) str
 				name := calleeName(p, c)
 				if (name == "sort.Strings" || name == "sort.Slice" || name == "sort.Sort") && len(c.Args) > 0 {
 					if id, ok := c.Args[0].(*ast.Ident); ok {
-						for _, a := range appends {
-							if a == id.Name {
-								sorted = true
-							}
+						// the very variable the loop appended to (not a shadowing one)
+						if p.TypesInfo != nil && appendObjs[p.TypesInfo.ObjectOf(id)] {
+							sorted = true
 						}
 					}
 				}
@@ -99,6 +130,10 @@ func classifyRange(p *packages.Package, fd *ast.FuncDecl, rs *ast.RangeStmt) str
 	}
 	if mapWrites {
 		parts = append(parts, "mapwrite")
+	}
+	if len(carries) > 0 {
+		sort.Strings(carries)
+		parts = append(parts, "carry("+strings.Join(dedupStrings(carries), ",")+")")
 	}
 	if deletes {
 		parts = append(parts, "delete")
